@@ -223,3 +223,30 @@ def expand_locals(func, stmt, expr, _depth=0):
         return R().visit(_copy.deepcopy(e))
 
     return ast.fix_missing_locations(subst(expr, before))
+
+
+def local_placeholders(func):
+    """{local name: "$k"} for the names a function binds by assignment / for / with / walrus (parameters keep their names:
+    they are part of the signature), numbered by first binding.  Used to key findings independently of what locals are called."""
+    a = func.args
+    params = {x.arg for x in a.posonlyargs + a.args + a.kwonlyargs}
+    if a.vararg:
+        params.add(a.vararg.arg)
+    if a.kwarg:
+        params.add(a.kwarg.arg)
+    out = {}
+    stores = sorted((n for n in ast.walk(func) if isinstance(n, ast.Name) and isinstance(n.ctx, ast.Store)), key=lambda n: (n.lineno, n.col_offset))
+    for n in stores:
+        if n.id not in params and n.id not in out:
+            out[n.id] = f"${len(out) + 1}"
+    return out
+
+
+def norm_renamed(node, mapping):
+    """``ast.unparse`` of ``node`` with Name identifiers renamed through ``mapping``"""
+    import copy as _copy
+
+    class R(ast.NodeTransformer):
+        def visit_Name(self, n):
+            return ast.copy_location(ast.Name(id=mapping.get(n.id, n.id), ctx=n.ctx), n)
+    return ast.unparse(R().visit(_copy.deepcopy(node))).replace("$", "_")
